@@ -454,7 +454,7 @@ C05_INVERSE(minute)
 C05_INVERSE(hour)
 C05_INVERSE(day)
 C05_INVERSE(year)
-/* reachability probe for the inverse-law lemmas (run by hand: its assertion must FAIL) */
+/* reachability probe for the inverse-law lemmas (goal marked probe=True, run with every C05 check: its assertion must FAIL) */
 void pl_C05_probe(void)
 {
   fields a; diff_t n;
